@@ -35,6 +35,8 @@ def trees():
         out["eq-" + os.path.basename(p)[:-6]] = ("clean", p, [])
     for p in sorted(glob.glob(os.path.join(VERIF, "selftest", "refactors", "*.patch"))):
         out["ref-" + os.path.basename(p)[:-6]] = ("clean", p, [])
+    for p in sorted(glob.glob(os.path.join(VERIF, "selftest", "features", "*.patch"))):
+        out["feat-" + os.path.basename(p)[:-6]] = ("clean", p, [])
     for p in sorted(glob.glob(os.path.join(VERIF, "selftest", "mutants", "*", "*.patch"))):
         prop = os.path.basename(os.path.dirname(p))
         out["mut-%s-%s" % (prop, os.path.basename(p)[:-6])] = ("mutant", p, [prop])
